@@ -271,8 +271,8 @@ def run_case(ctx, repo, case):
         # whatever else is given beside it)
         for kw, d in zip(case["durs"], ds):
             ctx.ev("ctor.check")
-            want = (kw.get("years", 0), kw.get("months", 0),
-                    sum(F(kw.get(u, 0)) * k for u, k in (
+            want = (kw.get("years") or 0, kw.get("months") or 0,
+                    sum(F(kw.get(u) or 0) * k for u, k in (
                         ("weeks", 604800), ("days", 86400), ("hours", 3600),
                         ("minutes", 60), ("seconds", 1))))
             got = tuple(R.dur_nominal(d)) + (R.dur_len(d),)
@@ -391,6 +391,14 @@ RESPELLED = [
     [{"days": 20000000000, "seconds": 1}, {"days": 20000000000},
      {"days": 20000000000, "seconds": -1}, {"hours": 480000000000,
                                             "seconds": 1}],
+    # a unit keyword given as None is an absent unit; standardize=True only
+    # carries exact units upwards
+    [{"weeks": 2, "days": None, "hours": 1}, {"days": 14, "hours": 1},
+     {"hours": 337}, {"weeks": 2, "hours": 1}],
+    [{"weeks": 1, "hours": 30, "standardize": True}, {"days": 8, "hours": 6},
+     {"weeks": 1, "days": 1, "hours": 6}, {"hours": 198}],
+    [{"weeks": -1, "hours": -30, "standardize": True}, {"hours": -198},
+     {"days": -8, "hours": -6}],
     [{"weeks": 1, "days": 1, "hours": -1}, {"days": 8, "hours": -1},
      {"hours": 191}, {"weeks": 1, "hours": 23}],
     [{"weeks": 5, "months": 1, "days": -1}, {"months": 1, "days": 34},
@@ -440,6 +448,9 @@ def workload(ctx, repo):
             case["derive"] = {str(rng.randrange(len(durs))): rng.choice(
                 ("to_weeks", "to_weeks", "to_days", "x1", "abs", "neg-neg",
                  "+0"))}
+        if k % 9 == 4:
+            j = rng.randrange(len(durs))
+            durs[j] = dict(durs[j], standardize=True)
         if k % 7 == 2:
             # the weeks keyword beside other units (either sign)
             j = rng.randrange(len(durs))
